@@ -37,6 +37,7 @@ TRUSTED = [
     "C16 lemma (A6): positively oriented simplices on the corners of a convex cell whose chain boundary equals the cell boundary tile the cell (degree argument); used for the triangulate tables on the reference cell, transported by the affine (hexahedron) / bilinear-with-straight-edges (quad) cell map",
     "C16 lemma (A6): a quadratic / Lagrange cell whose additional nodes are the images of the reference nodes under the (multi)linear corner map has the geometry map of the linear cell (proved per element where felupe has an element class; for triangle7/tetra14/tetra15/hexahedron26 only the centroid clauses are proved)",
     "C16: cos^2+sin^2=1 of the trig atoms is applied on the spec side (vk.cells.trig_reduce); math.rotation_matrix is under contract in C17",
+    "C16: np.isscalar(ring element) is True (a ring element stands for a float scalar, A1)",
     "C16: np.unique(axis=0) on symbolic rows is replaced by an exact reference (vk.cells.unique_rows_ref: lexicographic sort, every comparison decided by the oracle under requires; assumed numpy contract: rows sorted, distinct, result[inverse]==input); scipy.interpolate.griddata on the two abscissae (-1, 1) is replaced by exact linear interpolation (differentially tested against scipy in the same run)",
     "C16: mesh sizes: one or two cells per mesh, up to three meshes, 2..4 layers -- the point / cell / layer axes are batch axes (A2): the code applies only index-uniform numpy operations (vstack, fancy indexing, broadcasting) along them",
 ]
@@ -70,10 +71,11 @@ def two_cell_reference(ct, ncells=2):
     raise KeyError(ct)
 
 
-def make_mesh(vk, ct, ncells=2, shape="generic", name="X", spread=0.12, valid=True, embed=0):
+def make_mesh(vk, ct, ncells=2, shape="generic", name="X", spread=0.12, valid=True, embed=0, offset=0.0):
     """Mesh with symbolic point coordinates.  shape='generic': every coordinate is a free real;
     'affine': X = B xi + t with free B (det B > 0) and t.  embed: extra free coordinates per point"""
     ref, conn = two_cell_reference(ct, ncells)
+    ref = ref + offset  # only the centre of the sampling box for the paired float run / replays
     dim = ref.shape[1]
     if shape == "generic":
         near = ref if not embed else np.hstack([ref, np.zeros((len(ref), embed))])
@@ -86,6 +88,8 @@ def make_mesh(vk, ct, ncells=2, shape="generic", name="X", spread=0.12, valid=Tr
         if valid:
             vk.requires(cells.det([B[:, k] for k in range(dim)]), ">")
     mesh = fem.Mesh(P, conn, ct)
+    vk.real(fem.Mesh.__init__)
+    vk.real(fm._discrete_geometry.DiscreteGeometry.update)
     if valid and shape == "generic":
         assume_valid(vk, ct, P[:, :dim], conn)
     return mesh
@@ -114,10 +118,40 @@ def tr(vk, a):
     return cells.trig_reduce_arr(np.asarray(a)) if vk.sym else np.asarray(a)
 
 
+def _deg(p):
+    return max((sum(e for _, e in m) for m in p.t), default=0)
+
+
+def sign_by_certificate(v):
+    """+1 / -1 if v == c * A_i * A_j (or c * A_i) with c rational and A_i, A_j literally assumed positive
+    (product of positives is positive) -- a sound certificate search, no solver involved; else None"""
+    v = ring.expand(co(v))
+    pos = [ring.expand(q) for q, o in oracle.ASSUME if o == ">"]
+    dv = _deg(v)
+    for q in pos:
+        r = oracle._ratio(v, q)
+        if r:
+            return 1 if r > 0 else -1
+    degs = [_deg(q) for q in pos]
+    for i in range(len(pos)):
+        for j in range(i, len(pos)):
+            if degs[i] + degs[j] == dv:
+                r = oracle._ratio(v, pos[i] * pos[j])
+                if r:
+                    return 1 if r > 0 else -1
+            elif len(pos) <= 12 and degs[i] + degs[j] < dv:
+                for k in range(j, len(pos)):
+                    if degs[i] + degs[j] + degs[k] == dv:
+                        r = oracle._ratio(v, pos[i] * pos[j] * pos[k])
+                        if r:
+                            return 1 if r > 0 else -1
+    return None
+
+
 def ensures_pos(vk, clause, vals):
-    """strict positivity of every entry for all inputs inside `requires`, decided by the oracle (literally
-    assumed fact up to a positive factor / structural sign / z3).  Recorded as value == |value| so that a
-    refutation is replayed natively with the failing input"""
+    """strict positivity of every entry for all inputs inside `requires`: literally assumed fact up to a
+    positive factor / product certificate over the assumed facts / structural sign / z3 (oracle).
+    Recorded as value == |value| so that a refutation is replayed natively with the failing input"""
     vals = np.asarray(vals, dtype=object if vk.sym else float)
     for i in np.ndindex(*vals.shape):
         nm = clause + ("/" + ",".join(map(str, i)) if i else "")
@@ -125,8 +159,12 @@ def ensures_pos(vk, clause, vals):
             vk.ensures_eq(nm, vals[i], vals[i])
             continue
         v = cells.trig_reduce(co(vals[i]))
+        budget, oracle.TIMEOUT_MS = oracle.TIMEOUT_MS, 2500
         try:
-            if oracle.decide(v, ">"):
+            sg = None if v.asconst() is not None else sign_by_certificate(v)
+            if sg is not None:
+                rhs = vals[i] if sg > 0 else -v
+            elif oracle.decide(v, ">"):
                 rhs = vals[i]
             elif ring.iszero(v):
                 rhs = v + 1
@@ -135,14 +173,24 @@ def ensures_pos(vk, clause, vals):
         except oracle.Undecided as e:
             vk.ensures_true(nm, None, str(e)[:300], backend="oracle")
             continue
+        finally:
+            oracle.TIMEOUT_MS = budget
         vk.ensures_eq(nm, vals[i], rhs)
 
 
+def _same(a, b):
+    if isinstance(a, np.ndarray) or isinstance(b, np.ndarray):
+        a_, b_ = np.asarray(a), np.asarray(b)
+        return a_.shape == b_.shape and bool(np.all(a_ == b_))
+    if isinstance(a, (tuple, list)) and isinstance(b, (tuple, list)):
+        return len(a) == len(b) and all(_same(x, y) for x, y in zip(a, b))
+    return bool(a == b)
+
+
 def ensures_same(vk, clause, a, b):
-    """ground equality of integer arrays / strings / shapes (one obligation)"""
-    a_, b_ = np.asarray(a), np.asarray(b)
-    ok = a_.shape == b_.shape and bool(np.all(a_ == b_))
-    vk.ensures_true(clause, ok, "" if ok else f"got {a_.tolist()!r}, expected {b_.tolist()!r}"[:400])
+    """ground equality of integer arrays / strings / shapes / nested tuples of those (one obligation)"""
+    ok = _same(a, b)
+    vk.ensures_true(clause, ok, "" if ok else f"got {a!r}, expected {b!r}"[:400])
 
 
 def no_unused(vk, clause, mesh):
@@ -267,3 +315,1187 @@ def spec(vk, cfg):
     for ct, E in (("line", fem.element.Line), ("triangle", fem.element.Triangle), ("quad", fem.element.Quad), ("tetra", fem.element.Tetra), ("hexahedron", fem.element.Hexahedron)):
         vk.ensures_eq(f"reference-corners=={E.__name__}.points", np.asarray(E().points, dtype=float), REFP[ct])
     vk.canary("quad-area==one-triangle", cells.volume("quad", Q), cells.volume("triangle", Q[[0, 1, 2]]))
+
+
+# ================================================================================================ rigid maps
+def _dim_of(ct):
+    return cells.DIM[ct]
+
+
+RIGID_CFG = (
+    [dict(op="translate", ct=ct) for ct in LINEAR]
+    + [dict(op="rotate", ct=ct, variant=v) for ct in ("triangle", "quad", "tetra", "hexahedron") for v in ("origin", "center", "mask")]
+    + [dict(op="mirror", ct=ct, variant=v) for ct in LINEAR for v in ("axis", "normal", "default")]
+    + [dict(op="flip", ct=ct) for ct in LINEAR]
+)
+# affine hexahedra in addition to the generic ones (cheap; also the cell shape used by triangulate)
+RIGID_CFG += [dict(op=op, ct="hexahedron", shape="affine", **kw) for op, kw in (("mirror", dict(variant="normal")), ("rotate", dict(variant="center")), ("flip", {}))]
+
+
+@contract("C16", "rigid", configs=RIGID_CFG)
+def rigid(vk, cfg):
+    """translate / rotate / mirror / flip on generic cells: point map is the textbook rigid map, every cell
+    keeps its corners, corner Jacobians and signed volume (flip: sign changes, double flip = identity)"""
+    op, ct = cfg["op"], cfg["ct"]
+    dim = _dim_of(ct)
+    mesh = make_mesh(vk, ct, cfg.get("ncells", 2), shape=cfg.get("shape", "generic"))
+    P0 = mesh.points
+    s0 = snap(vk, mesh)
+    if op == "translate":
+        vk.real(fm.translate)
+        vk.real(fem.Mesh.translate)
+        move = vk.real_scalar("move", near=0.7, spread=0.5)
+        for axis in list(range(dim)) + [-1]:
+            new = mesh.translate(move, axis)
+            exp = P0.copy()
+            exp[:, axis] = exp[:, axis] + move
+            vk.ensures_eq(f"translate/axis={axis}/points", new.points, exp)
+            ensures_same(vk, f"translate/axis={axis}/cells", new.cells, mesh.cells)
+            rigid_inv(vk, f"translate/axis={axis}", mesh, new)
+            frame(vk, f"translate/axis={axis}", mesh, s0)
+        pts, cl, ctn = fm.translate(P0, mesh.cells, ct, move=move, axis=0)  # array form of the decorator
+        exp = P0.copy()
+        exp[:, 0] = exp[:, 0] + move
+        vk.ensures_eq("translate/array-form/points", pts, exp)
+        ensures_same(vk, "translate/array-form/cells", cl, mesh.cells)
+        vk.canary("translate-moves-nothing", new.points, P0)
+    elif op == "rotate":
+        vk.real(fm.rotate)
+        vk.real(fem.Mesh.rotate)
+        vk.real(fem.math.rotation_matrix)
+        a, c, s = angle(vk, "alpha")
+        variant = cfg["variant"]
+        center = None if variant == "origin" else vk.reals("cen", (dim,), near=0.3, spread=0.5)
+        cen = (0 * P0[0]) if center is None else center
+        if variant == "mask":
+            # two disconnected copies of the cell; only the points of the second one are selected
+            P2 = vk.reals("Y", REFP[ct].shape, near=REFP[ct] + 3.0, spread=0.12)
+            n = len(REFP[ct])
+            both = fem.Mesh(np.vstack([P0[:n], P2]), np.array([list(range(n)), list(range(n, 2 * n))]), ct)
+            assume_valid(vk, ct, P2, [list(range(n))])
+            mask = np.arange(2 * n) >= n
+            mesh, P0, s0 = both, both.points, snap(vk, both)
+        else:
+            mask = None
+        for axis in ((0, 2) if dim == 2 else (0, 1, 2)):
+            new = mesh.rotate(a, axis, center=center, mask=mask)
+            R = rot_spec(vk, dim, axis, c, s)
+            exp = matvec(R, P0 - cen) + cen
+            if mask is not None:
+                exp[~mask] = P0[~mask]
+            nm = f"rotate/{variant}/axis={axis}"
+            vk.ensures_eq(nm + "/points", new.points, exp)
+            ensures_same(vk, nm + "/cells", new.cells, mesh.cells)
+            rigid_inv(vk, nm, mesh, new, reduce=True)
+            # rigid: distances inside the first / last cell are preserved
+            cc = new.cells[-1]
+            d_new = np.array([sum((new.points[p] - new.points[q]) ** 2) for p, q in itertools.combinations(cc, 2)])
+            d_old = np.array([sum((P0[p] - P0[q]) ** 2) for p, q in itertools.combinations(cc, 2)])
+            vk.ensures_eq(nm + "/distances", tr(vk, d_new), d_old)
+            frame(vk, nm, mesh, s0)
+        vk.canary("rotate-is-identity", new.points, P0)
+        vk.canary("rotation-doubles-volume", tr(vk, vols(new)), 2 * vols(mesh))
+    elif op == "mirror":
+        vk.real(fm.mirror)
+        vk.real(fm.flip)
+        vk.real(fem.Mesh.mirror)
+        variant = cfg["variant"]
+        runs = []
+        if variant == "axis":
+            cen = vk.reals("cen", (dim,), near=0.3, spread=0.5)
+            for axis in range(dim):
+                e = np.zeros(dim)
+                e[axis] = 1
+                runs.append((f"axis={axis}", dict(axis=axis, centerpoint=cen), ring.lift(e) if vk.sym else e, cen))
+        elif variant == "normal":
+            nrm = vk.reals("nrm", (dim,), near=[0.6, -0.5, 0.7][:dim], spread=0.3)
+            cen = vk.reals("cen", (dim,), near=0.3, spread=0.5)
+            vk.requires(sum(nrm * nrm), ">")
+            runs.append(("normal", dict(normal=nrm, centerpoint=cen), nrm, cen))
+        else:
+            e = np.zeros(dim)
+            e[0] = 1
+            runs.append(("default", dict(), ring.lift(e) if vk.sym else e, 0 * P0[0]))
+        for label, kw, n, cen in runs:
+            new = mesh.mirror(**kw)
+            nn = sum(n * n)
+            exp = np.array([p - 2 * n * sum(n * (p - cen)) / nn for p in P0])
+            nm = f"mirror/{label}"
+            vk.ensures_eq(nm + "/points==householder-reflection", new.points, exp)
+            rigid_inv(vk, nm, mesh, new)  # reflection + re-ordering: positive orientation and volume kept
+            frame(vk, nm, mesh, s0)
+        vk.canary("mirror-keeps-cell-order", vols(fem.Mesh(new.points, mesh.cells, ct)), vols(mesh))
+    elif op == "flip":
+        vk.real(fm.flip)
+        vk.real(fem.Mesh.flip)
+        new = mesh.flip()
+        vk.ensures_eq("flip/points", new.points, P0)
+        rigid_inv(vk, "flip", mesh, new, sign=-1)
+        back = new.flip()
+        ensures_same(vk, "flip/double-flip==identity/cells", back.cells, mesh.cells)
+        rigid_inv(vk, "flip/double-flip", mesh, back)
+        # masked: only the selected cell changes orientation
+        for mask in ([False, True], [True, False], np.array([True, True])):
+            part = mesh.flip(mask=mask)
+            sel = np.asarray(mask)
+            nm = f"flip/mask={[int(x) for x in sel]}"
+            sgn = np.where(sel, -1, 1)
+            vk.ensures_eq(nm + "/volume", vols(part), sgn * vols(mesh))
+            ensures_same(vk, nm + "/unselected-cells-unchanged", part.cells[~sel], mesh.cells[~sel])
+            ensures_same(vk, nm + "/cells-are-corner-permutations", all(perm_of(a, b) is not None for a, b in zip(part.cells, mesh.cells)), True)
+            again = part.flip(mask=mask)
+            ensures_same(vk, nm + "/double-flip==identity", again.cells, mesh.cells)
+        frame(vk, "flip", mesh, s0)
+        vk.canary("flip-keeps-volume", vols(new), vols(mesh))
+
+
+# ================================================================================================ triangulate
+TRI_CFG = [dict(ct="quad", mode=3), dict(ct="hexahedron", mode=0), dict(ct="hexahedron", mode=3), dict(ct="hexahedron", mode=1)]
+
+
+def parent_of(sub, parents):
+    hit = [k for k, p in enumerate(parents) if set(sub) <= set(p)]
+    return hit[0] if len(hit) == 1 else None
+
+
+@contract("C16", "triangulate", configs=TRI_CFG)
+def triangulate(vk, cfg):
+    """quad -> triangles on any valid (convex) quad; hexahedron -> tetrahedra (all modes) on the generic
+    affine image of the reference cell (planar faces): sub-cells positively oriented, their signed volumes
+    sum to the parent's, they tile the parent (chain criterion), no point is added, moved or left unused"""
+    ct, mode = cfg["ct"], cfg["mode"]
+    vk.real(fm.triangulate)
+    vk.real(fem.Mesh.triangulate)
+    mesh = make_mesh(vk, ct, 2, shape="generic" if ct == "quad" else "affine")
+    s0 = snap(vk, mesh)
+    if mode not in (0, 3):
+        try:
+            mesh.triangulate(mode=mode)
+            raised = False
+        except NotImplementedError:
+            raised = True
+        ensures_same(vk, f"mode={mode}/unsupported-mode-raises", raised, True)
+        return
+    new = mesh.triangulate(mode=mode)
+    sub_ct = {"quad": "triangle", "hexahedron": "tetra"}[ct]
+    nm = f"{ct}/mode={mode}"
+    ensures_same(vk, nm + "/cell_type", new.cell_type, sub_ct)
+    vk.ensures_eq(nm + "/points-unchanged", new.points, mesh.points)
+    parents = [parent_of(s, mesh.cells) for s in new.cells]
+    ensures_same(vk, nm + "/every-sub-cell-uses-corners-of-one-parent", all(p is not None for p in parents), True)
+    Vs = vols(new)
+    ensures_pos(vk, nm + "/sub-cell-positively-oriented", Vs)
+    Vp = vols(mesh)
+    for c in range(len(mesh.cells)):
+        mine = [k for k, p in enumerate(parents) if p == c]
+        vk.ensures_eq(nm + f"/sum-of-sub-volumes==parent-volume/cell={c}", sum(Vs[k] for k in mine), Vp[c])
+        local = [tuple(list(mesh.cells[c]).index(p) for p in new.cells[k]) for k in mine]
+        ok, why = cells.subdivision_is_tiling(ct, local)
+        vk.ensures_true(nm + f"/chain-boundary==cell-boundary/cell={c}", ok, why)
+    no_unused(vk, nm, new)
+    frame(vk, nm, mesh, s0)
+    vk.canary("one-sub-cell-has-the-parent-volume", Vs[0], Vp[0])
+    bad = [tuple(s) for s in new.cells[: len(new.cells) // 2]]
+    bad[0] = (bad[0][1], bad[0][0]) + bad[0][2:]
+    vk.canary_bool("chain-criterion-rejects-a-reversed-sub-cell", not cells.subdivision_is_tiling(ct, [tuple(list(mesh.cells[0]).index(p) for p in s) for s in bad])[0])
+
+
+# ================================================================================================ expand / revolve
+EXP_CFG = (
+    [dict(op="expand", ct=ct, variant=v) for ct in ("vertex", "line", "quad") for v in ("zarray", "zscalar")]
+    + [dict(op="expand", ct=ct, variant="embedded") for ct in ("line", "quad")]
+    + [dict(op="expand", ct="quad", variant="n=1")]
+    + [dict(op="revolve", ct="line", variant="open"), dict(op="revolve", ct="line", variant="closed"), dict(op="revolve", ct="vertex", variant="open")]
+    + [dict(op="revolve", ct="quad", variant="open", axis=0), dict(op="revolve", ct="quad", variant="open", axis=1)]
+    + [dict(op="revolve", ct="quad", variant="closed", axis=0), dict(op="revolve", ct="quad", variant="phiscalar", axis=0), dict(op="revolve", ct="line", variant="phiscalar")]
+    + [dict(op="fill_between", ct=ct) for ct in ("line", "quad")]
+)
+
+
+def base_mesh(vk, ct, embed=0, offset=0.0):
+    """valid base mesh for extrusion: a point, two 1d line cells, two generic quads"""
+    if ct == "vertex":
+        a = vk.reals("a", (1, 1), near=0.4, spread=0.3)
+        return fem.Mesh(a, np.array([[0]]), "vertex")
+    if ct == "line" and not embed:
+        x0 = vk.real_scalar("x0", near=0.5, spread=0.2)
+        h = vk.reals("h", (2,), near=1.0, spread=0.3)
+        vk.requires(h[0], ">")
+        vk.requires(h[1], ">")
+        vk.requires(x0, ">")
+        P = np.array([[x0], [x0 + h[0]], [x0 + h[0] + h[1]]])
+        return fem.Mesh(P, np.array([[0, 1], [1, 2]]), "line")
+    return make_mesh(vk, ct, 2, embed=embed, offset=offset)
+
+
+def layer_cells_ok(vk, new, base, layers):
+    """every new cell is spanned by one base cell between two consecutive layers, each (cell, layer)
+    exactly once.  layers: list of point arrays (one per layer, base point order)"""
+    todo = {(c, k) for c in range(len(base.cells)) for k in range(len(layers) - 1)}
+    for cell in new.cells:
+        A = [new.points[p] for p in cell]
+        hit = None
+        for c, k in sorted(todo):
+            B = [layers[k][p] for p in base.cells[c]] + [layers[k + 1][p] for p in base.cells[c]]
+            if same_point_sets(vk, A, B):
+                hit = (c, k)
+                break
+        if hit is None:
+            return False, f"cell {list(cell)} is not spanned by a base cell between consecutive layers"
+        todo.discard(hit)
+    return (not todo), f"{len(todo)} (cell, layer) pairs not covered"
+
+
+@contract("C16", "extrude", configs=EXP_CFG)
+def extrude(vk, cfg):
+    """expand / revolve / fill_between: layer stacking.  Every new cell is spanned by a base cell between
+    consecutive layers, is positively oriented (incl. the `line` slice reversal), the covered volume is
+    area x thickness (expand) resp. sin(dphi) x first moment about the axis (revolve: the straight-sided
+    cell between two meridian planes), no unused points"""
+    op, ct, variant = cfg["op"], cfg["ct"], cfg.get("variant")
+    new_ct = {"vertex": "line", "line": "quad", "quad": "hexahedron"}[ct]
+    if op == "expand":
+        vk.real(fm.expand)
+        vk.real(fem.Mesh.expand)
+        embed = 1 if variant == "embedded" else 0
+        base = base_mesh(vk, ct, embed=embed)
+        s0 = snap(vk, base)
+        dimb = base.points.shape[1]
+        if variant == "n=1":
+            new = base.expand(n=1, z=vk.real_scalar("z", near=1.0))
+            ensures_same(vk, "expand/n=1/cell_type", new.cell_type, ct)
+            ensures_same(vk, "expand/n=1/cells", new.cells, base.cells)
+            vk.ensures_eq("expand/n=1/points-embedded", new.points, np.hstack([base.points, 0 * base.points[:, :1]]))
+            vk.ensures_eq("expand/n=1/volume", vols(new), vols(base))
+            return
+        if variant == "zscalar":
+            z = vk.real_scalar("z", near=1.5, spread=0.5)
+            vk.requires(z, ">")
+            zs = [0 * z, z / 2, z]
+            kw = dict(n=3, z=z)
+        else:
+            z0 = vk.real_scalar("z0", near=-0.2, spread=0.3)
+            dz = vk.reals("dz", (2,), near=0.8, spread=0.3)
+            vk.requires(dz[0], ">")
+            vk.requires(dz[1], ">")
+            zs = [z0, z0 + dz[0], z0 + dz[0] + dz[1]]
+            kw = dict(z=np.array(zs), n=7)  # n is ignored when z is an array
+        if embed:
+            kw.update(expand_dim=False, axis=dimb - 1)
+        new = base.expand(**kw)
+        nm = f"expand/{ct}/{variant}"
+        ensures_same(vk, nm + "/cell_type", new.cell_type, new_ct)
+        zero = 0 * base.points[:, :1]
+        if ct == "vertex":
+            # a point expands to a line along the new axis (the point coordinate itself is dropped)
+            layers = [np.array([[z + 0 * zero[0, 0]]]) for z in zs]
+        elif embed:
+            layers = [np.hstack([base.points[:, :-1], base.points[:, -1:] + z]) for z in zs]
+        else:
+            layers = [np.hstack([base.points, zero + z]) for z in zs]
+        ok, why = layer_cells_ok(vk, new, base, layers)
+        vk.ensures_true(nm + "/cells-span-consecutive-layers", ok, why)
+        ensures_same(vk, nm + "/npoints", len(new.points), len(zs) * len(base.points))
+        d = cells.DIM[new_ct]
+        Vn = vols(new, dim=d)
+        area = 1 if ct == "vertex" else sum(vols(base, dim=d - 1))
+        vk.ensures_eq(nm + "/covered-volume==area*thickness", sum(Vn), area * (zs[-1] - zs[0]))
+        ensures_pos(vk, nm + "/cell-volume-positive", Vn)
+        if new.points.shape[1] == d:
+            ensures_pos(vk, nm + "/corner-jacobians-positive", cjac(new))
+        no_unused(vk, nm, new)
+        frame(vk, nm, base, s0)
+        vk.canary("extruded-volume==area", sum(Vn), area + 0 * zs[-1])
+    elif op == "revolve":
+        vk.real(fm.revolve)
+        vk.real(fem.Mesh.revolve)
+        vk.real(fem.math.rotation_matrix)
+        base = base_mesh(vk, ct, offset=2.5)
+        s0 = snap(vk, base)
+        axis = cfg.get("axis", 0)
+        closed = variant == "closed"
+        # meridian angles 0 < phi1 < phi2 (< 360 closing): increments in (0, 180) <=> sin(increment) > 0
+        a1, c1, s1 = angle(vk, "phi1", near=50.0, spread=25.0)
+        scalar = variant == "phiscalar"
+        if closed:
+            a2, c2, s2 = angle(vk, "phi2", near=200.0, spread=15.0)
+            phis = [0 * a1, a1, a2, 360 + 0 * a1]
+            C, S = [1 + 0 * c1, c1, c2, 1 + 0 * c1], [0 * s1, s1, s2, 0 * s1]
+        elif scalar:  # phi scalar: n equidistant meridian planes 0, phi/2, phi  (np.linspace path)
+            a2 = 2 * a1
+            c2, s2 = cs(vk, a2)
+            phis = [0 * a1, a1, a2]
+            C, S = [1 + 0 * c1, c1, c2], [0 * s1, s1, s2]
+        else:
+            a2, c2, s2 = angle(vk, "phi2", near=120.0, spread=25.0)
+            phis = [0 * a1, a1, a2]
+            C, S = [1 + 0 * c1, c1, c2], [0 * s1, s1, s2]
+        dsin = [S[k + 1] * C[k] - C[k + 1] * S[k] for k in range(len(phis) - 1)]
+        for x in dsin:
+            vk.requires(cells.trig_reduce(x) if vk.sym else x, ">")
+        nm = f"revolve/{ct}/{variant}/axis={axis}"
+        P = base.points
+        dimb = P.shape[1]
+        # the section lies on the positive side of the axis of revolution
+        arm = 0 if dimb == 1 else (1 - axis)
+        if ct == "quad":
+            for p in P:
+                vk.requires(p[arm], ">")
+        new = base.revolve(phi=phis[-1], axis=axis, n=3) if scalar else base.revolve(phi=np.array(phis), axis=axis, n=9)
+        ensures_same(vk, nm + "/cell_type", new.cell_type, new_ct)
+        pad = np.hstack([P, 0 * P[:, :1]])
+        layers = [matvec(rot_spec(vk, dimb + 1, axis if dimb == 2 else 0, C[k], S[k]), pad) for k in range(len(phis))]
+        if closed:
+            layers[-1] = layers[0]
+        ok, why = layer_cells_ok(vk, new, base, layers)
+        vk.ensures_true(nm + "/cells-span-consecutive-meridian-planes", ok, why)
+        ensures_same(vk, nm + "/npoints", len(new.points), (len(phis) - (1 if closed else 0)) * len(P))
+        no_unused(vk, nm, new)
+        frame(vk, nm, base, s0)
+        if ct == "vertex":
+            return  # a curve in the plane: no signed measure
+        Vn = tr(vk, vols(new))
+        if ct == "line":
+            M = [(P[c[1], 0] ** 2 - P[c[0], 0] ** 2) / 2 for c in base.cells]
+        else:
+            M = [cells.first_moment(P[c], arm) for c in base.cells]
+        # cells are ordered layer by layer (checked above up to order): compare as totals per layer pair
+        tot = sum(Vn)
+        vk.ensures_eq(nm + "/covered-volume==sum sin(dphi)*first-moment", tot, tr(vk, sum(dsin) * sum(M)))
+        ensures_pos(vk, nm + "/cell-volume-positive", Vn)
+        if ct == "line":
+            ensures_pos(vk, nm + "/corner-jacobians-positive", tr(vk, cjac(new)))
+        vk.canary("revolved-volume==pappus-with-angle-in-degree", tot, sum(M) * phis[-1])
+    else:
+        fill_between(vk, cfg)
+
+
+def _griddata_ref(points, values, xi, **kw):
+    """exact linear interpolation on the abscissae (-1, 1) (contract of scipy.interpolate.griddata, 1d)"""
+    assert list(points) == [-1, 1]
+    v = np.asarray(values)
+    return np.array([[(v[0, j] * (1 - t) + v[1, j] * (1 + t)) / 2 for j in range(v.shape[1])] for t in xi], dtype=v.dtype)
+
+
+def fill_between(vk, cfg):
+    ct = cfg["ct"]
+    vk.real(fm.fill_between)
+    vk.real(fm.expand)
+    vk.real(fem.Mesh.fill_between)
+    new_ct = {"line": "quad", "quad": "hexahedron"}[ct]
+    d = cells.DIM[new_ct]
+    ref, conn = two_cell_reference(ct, 2)
+    lo = np.hstack([ref, -np.ones((len(ref), 1))])
+    hi = np.hstack([ref, np.ones((len(ref), 1))])
+    bot = fem.Mesh(vk.reals("bot", lo.shape, near=lo, spread=0.12), conn, ct)
+    top = fem.Mesh(vk.reals("top", hi.shape, near=hi, spread=0.12), conn, ct)
+    t = vk.real_scalar("tau", near=0.1, spread=0.4)
+    vk.requires(1 - t, ">")
+    vk.requires(1 + t, ">")
+    span = [np.vstack([bot.points[c], top.points[c][:: (-1 if ct == "line" else 1)]]) for c in conn]
+    grids = {"n=3": (3, [-1, 0, 1]), "n=array": (np.array([-1 + 0 * t, t, 1 + 0 * t]), [-1, t, 1])}
+    # valid argument: the cells spanned between the two meshes are valid -- det J > 0 on the closed
+    # reference cell, instantiated at the corners of every layer
+    for X in span:
+        for eta in (-1, 0, 1, t):
+            for xi in itertools.product((-1, 1), repeat=d - 1):
+                vk.requires(cells.jac_at(new_ct, X, list(xi) + [eta]), ">")
+    if vk.sym:
+        from scipy.interpolate import griddata as real_griddata
+
+        rs = np.random.RandomState(0)
+        vals, xis = rs.rand(2, 3), np.array([-1.0, -0.3, 0.2, 1.0])
+        with symnp.native():
+            ok = np.allclose(real_griddata(points=[-1, 1], values=vals, xi=xis), _griddata_ref([-1, 1], vals, xis), atol=1e-14)
+        vk.bounded_standin("griddata reference == scipy.interpolate.griddata (shim validation)", "one random sample", 1, ok)
+        if not ok:
+            raise AssertionError("griddata reference disagrees with scipy")
+    s0, s1 = snap(vk, bot), snap(vk, top)
+    old = fm_tools.griddata
+    try:
+        if vk.sym:
+            fm_tools.griddata = _griddata_ref
+        for label, (n, etas) in grids.items():
+            new = bot.fill_between(top, n=n)
+            nm = f"fill_between/{ct}/{label}"
+            ensures_same(vk, nm + "/cell_type", new.cell_type, new_ct)
+            layers = [((1 - e) * bot.points + (1 + e) * top.points) / 2 for e in etas]
+            ok, why = layer_cells_ok(vk, new, bot, layers)
+            vk.ensures_true(nm + "/cells-span-consecutive-layers", ok, why)
+            ensures_same(vk, nm + "/npoints", len(new.points), 3 * len(bot.points))
+            Vn = vols(new)
+            vk.ensures_eq(nm + "/covered-volume==volume-between-the-meshes", sum(Vn), sum(cells.volume(new_ct, X) for X in span))
+            ensures_pos(vk, nm + "/corner-jacobians-positive", cjac(new))
+            no_unused(vk, nm, new)
+            frame(vk, nm + "/bottom", bot, s0)
+            frame(vk, nm + "/top", top, s1)
+        vk.canary("filled-volume==half", sum(Vn), sum(cells.volume(new_ct, X) for X in span) / 2)
+    finally:
+        fm_tools.griddata = old
+
+
+# ================================================================================================ order conversion
+ELEMENT_OF = {}
+for _n in dir(fem.element):
+    _E = getattr(fem.element, _n)
+    if isinstance(_E, type) and _n not in ("Element", "ArbitraryOrderLagrange"):
+        try:
+            _e = _E()
+            if getattr(_e, "cell_type", None):
+                ELEMENT_OF.setdefault(_e.cell_type, _E)
+        except Exception:
+            pass
+
+MID_CFG = (
+    [dict(ct=ct, stage=st) for ct in ("triangle", "quad", "tetra", "hexahedron") for st in ("edges", "faces", "edges+faces")]
+    + [dict(ct=ct, stage=st) for ct in ("tetra", "hexahedron") for st in ("volumes", "edges+faces+volumes")]
+    + [dict(ct=ct, stage="convert") for ct in ("triangle", "quad", "tetra", "hexahedron")]
+)
+
+
+def sub_entities(ct):
+    """corner index sets of the edges, faces and the volume of a linear reference cell (from REF)"""
+    ref = cells.REF[ct]
+    n, dim = len(ref), cells.DIM[ct]
+    if ct in cells.SIMPLEX:
+        edges = [frozenset(p) for p in itertools.combinations(range(n), 2)]
+        faces = [frozenset(p) for p in itertools.combinations(range(n), 3)] if dim == 3 else [frozenset(range(n))]
+    else:
+        edges = [frozenset((a, b)) for a, b in itertools.combinations(range(n), 2) if sum(x != y for x, y in zip(ref[a], ref[b])) == 1]
+        if dim == 3:
+            faces = [frozenset(a for a in range(n) if ref[a][k] == s) for k in range(3) for s in (-1, 1)]
+        else:
+            faces = [frozenset(range(n))]
+    return {"edges": edges, "faces": faces, "volumes": [frozenset(range(n))]}
+
+
+def carrier(ct, xi):
+    """corners of the smallest sub-entity of the reference cell that contains the reference point xi"""
+    ref = cells.REF[ct]
+    if ct in cells.SIMPLEX:
+        lam = [1 - sum(xi)] + list(xi)
+        return frozenset(a for a in range(len(ref)) if abs(lam[a]) > 1e-12)
+    return frozenset(a for a in range(len(ref)) if all(abs(abs(x) - 1) > 1e-12 or abs(x - r) < 1e-12 for x, r in zip(xi, ref[a])))
+
+
+def centroid(P, ids):
+    ids = sorted(ids)
+    return sum(P[i] for i in ids) / len(ids)
+
+
+@contract("C16", "midpoints", configs=MID_CFG)
+def midpoints(vk, cfg):
+    """add_midpoints_edges / faces / volumes and convert on two generic cells sharing a facet: the corner
+    geometry is untouched; every inserted point is the centroid (mean of the corners) of a distinct edge /
+    face / the volume of its cell, all of them are covered, shared entities get one shared point; where
+    felupe has an element for the new cell type: node j sits at the centroid of the reference entity
+    that carries element.points[j], and the geometry map of the new cell equals the (multi)linear map of the
+    original cell for all xi"""
+    ct, stage = cfg["ct"], cfg["stage"]
+    for f in (fm.add_midpoints_edges, fm.add_midpoints_faces, fm.add_midpoints_volumes, fm.collect_edges, fm.collect_faces, fm.collect_volumes, fm.convert):
+        vk.real(f)
+    mesh = make_mesh(vk, ct, 2)
+    P0, C0 = mesh.points, mesh.cells
+    s0 = snap(vk, mesh)
+    n0 = cells.NCORNER[ct]
+    ent = sub_entities(ct)
+    if stage == "convert":
+        for kw in (dict(order=2), dict(order=2, calc_midfaces=True), dict(order=2, calc_midfaces=True, calc_midvolumes=True)):
+            if kw.get("calc_midvolumes") and ct in ("triangle", "quad"):
+                continue  # no volume points on 2d cells (the function raises for them)
+            label = "convert/" + ",".join(f"{k}={v}" for k, v in kw.items())
+            new = mesh.convert(**kw)
+            kinds = ["edges"] + (["faces"] if kw.get("calc_midfaces") else []) + (["volumes"] if kw.get("calc_midvolumes") else [])
+            check_inserted(vk, cfg, label, mesh, new, kinds)
+        z = mesh.convert(order=0, calc_points=True)
+        vk.ensures_eq("convert/order=0/point==cell-centroid", z.points, np.array([centroid(P0, c) for c in C0]))
+        ensures_same(vk, "convert/order=0/cells", z.cells, np.arange(len(C0)).reshape(-1, 1))
+        z0 = mesh.convert(order=0)
+        vk.ensures_eq("convert/order=0/calc_points=False/zeros", z0.points, 0 * z.points)
+        try:
+            mesh.convert(order=1)
+            raised = False
+        except NotImplementedError:
+            raised = True
+        ensures_same(vk, "convert/order=1/raises", raised, True)
+        frame(vk, "convert", mesh, s0)
+        return
+    kinds = stage.split("+")
+    new = mesh
+    for i, k in enumerate(kinds):
+        fun = {"edges": fm.add_midpoints_edges, "faces": fm.add_midpoints_faces, "volumes": fm.add_midpoints_volumes}[k]
+        if (ct, tuple(kinds[: i + 1])) in EXPECTED_NAME:
+            new = fun(new)  # the function chooses the VTK name of the new cell type
+        else:
+            new = fun(new, cell_type_new=new.cell_type + "+" + k)  # node set without a VTK name
+    check_inserted(vk, cfg, stage, mesh, new, kinds)
+    frame(vk, stage, mesh, s0)
+
+
+EXPECTED_NAME = {
+    ("triangle", ("edges",)): "triangle6",
+    ("triangle", ("edges", "faces")): "triangle7",
+    ("quad", ("edges",)): "quad8",
+    ("quad", ("edges", "faces")): "quad9",
+    ("tetra", ("edges",)): "tetra10",
+    ("tetra", ("edges", "faces")): "tetra14",
+    ("tetra", ("edges", "faces", "volumes")): "tetra15",
+    ("hexahedron", ("edges",)): "hexahedron20",
+    ("hexahedron", ("edges", "faces")): "hexahedron26",
+    ("hexahedron", ("edges", "faces", "volumes")): "hexahedron27",
+}
+
+
+def check_inserted(vk, cfg, label, mesh, new, kinds):
+    ct = mesh.cell_type
+    P0, C0 = mesh.points, mesh.cells
+    n0 = cells.NCORNER[ct]
+    ent = sub_entities(ct)
+    name = EXPECTED_NAME.get((ct, tuple(kinds)))
+    if name is not None:
+        ensures_same(vk, label + "/cell_type", new.cell_type, name)
+    # corner geometry untouched
+    vk.ensures_eq(label + "/old-points-unchanged", new.points[: len(P0)], P0)
+    ensures_same(vk, label + "/corner-columns-unchanged", new.cells[:, :n0], C0)
+    ncols = n0 + sum(len(ent[k]) for k in kinds)
+    ensures_same(vk, label + "/points-per-cell", new.cells.shape[1], ncols)
+    # inserted points: centroid of a distinct entity of the cell, every entity covered
+    col = n0
+    for k in kinds:
+        width = len(ent[k])
+        for c, cell in enumerate(C0):
+            want = [centroid(P0, [cell[a] for a in e]) for e in ent[k]]
+            got = [new.points[p] for p in new.cells[c, col : col + width]]
+            nm = label + f"/{k}/cell={c}/inserted-points-are-the-centroids-of-all-{k}"
+            if same_point_sets(vk, got, want):
+                vk.ensures_true(nm, True, f"{width} points matched one-to-one")
+            else:  # state the clause in the reference order of the entities: refuted with a replayable residual
+                vk.ensures_eq(nm, np.array(got), np.array(want))
+        col += width
+    # shared entities get one point: number of new points == number of distinct entities in the mesh
+    distinct = sum(len({frozenset(cell[a] for a in e) for cell in C0 for e in ent[k]}) for k in kinds)
+    ensures_same(vk, label + "/no-duplicate-inserted-points", len(new.points) - len(P0), distinct)
+    no_unused(vk, label, new)
+    vk.ensures_eq(label + "/volume", vols(new, ct=ct), vols(mesh))
+    # ordering inside the cell and geometry map, against the real element of the new cell type
+    E = ELEMENT_OF.get(new.cell_type)
+    if E is None:
+        vk.note(f"C16: no felupe element for cell type {new.cell_type}: node order inside the cell is not checked, only that the inserted points are the centroids of all edges/faces/volume")
+        return
+    vk.real(E.function)
+    el = E()
+    xi_nodes = np.asarray(el.points, dtype=float)
+    ensures_same(vk, label + f"/{E.__name__}/node-count", len(xi_nodes), new.cells.shape[1])
+    want = np.array([[centroid(P0, [cell[a] for a in carrier(ct, xi_nodes[j])]) for j in range(len(xi_nodes))] for cell in C0])
+    vk.ensures_eq(label + f"/{E.__name__}/node==centroid-of-its-reference-entity", new.points[new.cells], want)
+    dim = cells.DIM[ct]
+    xi = vk.reals("xi", (dim,), near=0.0 if ct in cells.CUBE else 0.25, spread=0.2)
+    h = np.asarray(el.function(xi))
+    N = cells.shape_linear(ct, list(xi))
+    tol = 1e-10 if "Lagrange" in "".join(b.__name__ for b in E.__mro__) or hasattr(el, "_lagrange") else None
+    for c, cell in enumerate(C0):
+        hi = sum(h[j] * new.points[new.cells[c, j]] for j in range(len(h)))
+        lo = sum(N[a] * P0[cell[a]] for a in range(n0))
+        vk.ensures_eq(label + f"/{E.__name__}/geometry-map==linear-map/cell={c}", hi, lo, tol=tol)
+    vk.canary("quadratic-map==twice-linear-map", hi, 2 * lo + 1)
+
+
+# ================================================================================================ structure
+STRUCT_CFG = (
+    [dict(op="concatenate", ct=ct) for ct in ("quad", "tetra", "hexahedron")]
+    + [dict(op="stack", ct=ct) for ct in ("quad", "tetra")]
+    + [dict(op="container", ct="quad"), dict(op="container", ct="tetra")]
+    + [dict(op="disconnect", ct=ct) for ct in ("triangle", "quad", "tetra", "hexahedron")]
+    + [dict(op="dual", ct=ct, variant=v) for ct in ("quad", "tetra") for v in ("plain", "connected-offset", "npoints")]
+    + [dict(op="merge", ct="quad", order=o) for o in ("A", "B")]
+    + [dict(op="merge", ct="triangle", order="A"), dict(op="merge", ct="container", order="A")]
+)
+
+
+def cell_coords(mesh, n=None):
+    return mesh.points[mesh.cells if n is None else mesh.cells[:, :n]]
+
+
+@contract("C16", "structure", configs=STRUCT_CFG)
+def structure(vk, cfg):
+    """concatenate / stack / MeshContainer / disconnect / dual / merge_duplicate_points: index offsets are
+    such that every cell keeps the coordinates of all its corners (geometry, orientation and volume
+    unchanged), cell blocks keep their order, unused points are carried along but never created, merged
+    meshes have no coincident points"""
+    op, ct = cfg["op"], cfg["ct"]
+    if op == "concatenate":
+        vk.real(fm.concatenate)
+        # three meshes; the first and the last one carry unused points (offsets must count points, not
+        # referenced points)
+        m1 = make_mesh(vk, ct, 2, name="A")
+        m2 = make_mesh(vk, ct, 1, name="B")
+        m3 = make_mesh(vk, ct, 2, name="C")
+        extra = vk.reals("U", (2, m1.dim), near=5.0)
+        m1u = fem.Mesh(np.vstack([m1.points, extra[:1]]), m1.cells, ct)
+        m3u = fem.Mesh(np.vstack([extra[1:], m3.points]), m3.cells + 1, ct)
+        for label, ms in (("unused-points", [m1u, m2, m3u]), ("no-unused-points", [m1, m2, m3]), ("single", [m2])):
+            snaps = [snap(vk, m) for m in ms]
+            new = fm.concatenate(ms)
+            nm = f"concatenate/{label}"
+            vk.ensures_eq(nm + "/points==stacked-points", new.points, np.vstack([m.points for m in ms]))
+            vk.ensures_eq(nm + "/cell-corner-coordinates-unchanged", cell_coords(new), np.vstack([cell_coords(m) for m in ms]))
+            ensures_same(vk, nm + "/cell_type", new.cell_type, ct)
+            off = np.cumsum([0] + [len(m.points) for m in ms])[:-1]
+            ensures_same(vk, nm + "/unused-points-are-the-inputs-unused-points", new.points_without_cells, np.concatenate([o + m.points_without_cells for o, m in zip(off, ms)]).astype(int))
+            vk.ensures_eq(nm + "/volume", vols(new), np.concatenate([vols(m) for m in ms]))
+            for k, (m, s) in enumerate(zip(ms, snaps)):
+                frame(vk, nm + f"/mesh{k}", m, s)
+            if label != "unused-points":
+                no_unused(vk, nm, new)
+        vk.canary("concatenate-without-offsets", cell_coords(new), np.vstack([ms[0].points[m.cells] for m in ms]) if len(ms) > 1 else cell_coords(new) + 1)
+    elif op == "stack":
+        vk.real(fm.stack)
+        mesh = make_mesh(vk, ct, 2)
+        a, b = mesh.copy(), mesh.copy()
+        a.update(cells=mesh.cells[:1])
+        b.update(cells=mesh.cells[1:])
+        for label, ms in (("two", [a, b]), ("reversed", [b, a]), ("three", [a, b, a])):
+            new = fm.stack(ms)
+            nm = f"stack/{label}"
+            vk.ensures_eq(nm + "/points==points-of-first", new.points, ms[0].points)
+            ensures_same(vk, nm + "/cells", new.cells, np.vstack([m.cells for m in ms]))
+            vk.ensures_eq(nm + "/cell-corner-coordinates-unchanged", cell_coords(new), np.vstack([cell_coords(m) for m in ms]))
+            ensures_same(vk, nm + "/cell_type", new.cell_type, ct)
+            if label != "three":
+                no_unused(vk, nm, new)
+        vk.canary("stack-drops-a-block", vols(new)[:2], vols(mesh)[::-1] + vols(mesh))
+    elif op == "container":
+        vk.real(fem.MeshContainer.__init__)
+        vk.real(fem.MeshContainer.append)
+        vk.real(fem.MeshContainer.stack)
+        vk.real(fem.MeshContainer.as_vertex_mesh)
+        other = {"quad": "triangle", "tetra": "hexahedron"}[ct]
+        m1 = make_mesh(vk, ct, 2, name="A")
+        m2 = make_mesh(vk, other, 2, name="B")
+        m3 = make_mesh(vk, ct, 1, name="C")
+        ms = [m1, m2, m3]
+        snaps = [snap(vk, m) for m in ms]
+        cont = fem.MeshContainer([m1, m2])
+        cont += m3
+        allp = np.vstack([m.points for m in ms])
+        vk.ensures_eq("container/points==stacked-points", cont.points, allp)
+        for k, m in enumerate(ms):
+            mk = cont.meshes[k]
+            vk.ensures_eq(f"container/mesh{k}/shares-the-points-array", mk.points, allp)
+            vk.ensures_eq(f"container/mesh{k}/cell-corner-coordinates-unchanged", cell_coords(mk), cell_coords(m))
+            ensures_same(vk, f"container/mesh{k}/cell_type", mk.cell_type, m.cell_type)
+            frame(vk, f"container/mesh{k}", m, snaps[k])
+        ensures_same(vk, "container/cells()", [c for c, _ in cont.cells()], [m.cell_type for m in ms])
+        st = cont.stack([0, 2])
+        vk.ensures_eq("container/stack/cell-corner-coordinates-unchanged", cell_coords(st), np.vstack([cell_coords(m1), cell_coords(m3)]))
+        vk.ensures_eq("container/stack/volume", vols(st), np.concatenate([vols(m1), vols(m3)]))
+        try:
+            cont.stack()
+            raised = False
+        except TypeError:
+            raised = True
+        ensures_same(vk, "container/stack/mixed-cell-types-raise", raised, True)
+        vm = cont.as_vertex_mesh()
+        ensures_same(vk, "container/as_vertex_mesh/every-point-once", vm.cells.ravel(), np.arange(len(allp)))
+        popped = cont.pop(1)
+        ensures_same(vk, "container/pop", (popped.cell_type, len(cont.meshes)), (other, 2))
+        vk.canary("container-without-offsets", cell_coords(cont.meshes[1]), m1.points[m3.cells])
+    elif op == "disconnect":
+        vk.real(fem.Mesh.disconnect)
+        vk.real(fm.dual)
+        mesh = make_mesh(vk, ct, 2)
+        s0 = snap(vk, mesh)
+        new = mesh.disconnect()
+        n = mesh.cells.shape[1]
+        vk.ensures_eq("disconnect/cell-corner-coordinates-unchanged", cell_coords(new), cell_coords(mesh))
+        ensures_same(vk, "disconnect/each-cell-has-its-own-points", sorted(new.cells.ravel().tolist()), list(range(2 * n)))
+        ensures_same(vk, "disconnect/npoints", len(new.points), 2 * n)
+        ensures_same(vk, "disconnect/cell_type", new.cell_type, ct)
+        vk.ensures_eq("disconnect/volume", vols(new), vols(mesh))
+        vk.ensures_eq("disconnect/corner-jacobians", cjac(new), cjac(mesh))
+        no_unused(vk, "disconnect", new)
+        k = cells.NCORNER[ct] - 1
+        part = mesh.disconnect(points_per_cell=k)
+        vk.ensures_eq("disconnect/points_per_cell/corner-coordinates-unchanged", cell_coords(part), cell_coords(mesh, k))
+        no_unused(vk, "disconnect/points_per_cell", part)
+        nop = mesh.disconnect(calc_points=False)
+        ensures_same(vk, "disconnect/calc_points=False/cells", nop.cells, new.cells)
+        frame(vk, "disconnect", mesh, s0)
+        vk.canary("disconnect-keeps-sharing", new.cells[1], mesh.cells[1])
+    elif op == "dual":
+        vk.real(fm.dual)
+        vk.real(fem.Mesh.dual)
+        mesh = make_mesh(vk, ct, 2)
+        n = mesh.cells.shape[1]
+        variants = {
+            "plain": (dict(), dict(points_per_cell=n - 1), dict(disconnect=False), dict(disconnect=False, points_per_cell=n - 1), dict(offset=3), dict(npoints=2 * n), dict(npoints=2)),
+            "connected-offset": (dict(disconnect=False, offset=2),),
+            "npoints": (dict(npoints=2 * n + 3), dict(offset=2, npoints=2 * n + 5), dict(disconnect=False, npoints=len(mesh.points) + 2)),
+        }
+        for kw in variants[cfg["variant"]]:
+            arg = fem.Mesh(mesh.points.copy(), mesh.cells.copy(), ct)
+            sa = snap(vk, arg)
+            new = arg.dual(calc_points=True, **kw)
+            nm = ("dual/npoints-given/" if "npoints" in kw else "dual/") + ",".join(f"{k}={v}" for k, v in kw.items())
+            k = kw.get("points_per_cell", n)
+            frame(vk, nm, arg, sa)
+            vk.ensures_eq(nm + "/cell-corner-coordinates-unchanged", cell_coords(new), cell_coords(mesh, k))
+            if "npoints" in kw:
+                ensures_same(vk, nm + "/npoints", len(new.points), max(kw["npoints"], len(new.points)))
+        vk.canary("dual-shifts-cells", cell_coords(mesh.dual(calc_points=True, offset=1)), cell_coords(mesh) + 1)
+    elif op == "merge":
+        merge(vk, cfg)
+
+
+def merge(vk, cfg):
+    """merge_duplicate_points(decimals=None) / Mesh.sweep / MeshContainer(merge=True) on two generic cells
+    given with separate copies of the points of their common facet.  np.unique is the assumed numpy
+    contract (exact reference; the order of the rows is decided from `requires`: the first coordinates
+    of the distinct points are strictly ordered -- one config per order)"""
+    ct, order = cfg["ct"], cfg["order"]
+    vk.real(fm.merge_duplicate_points)
+    vk.real(fem.Mesh.merge_duplicate_points)
+    base_ct = "quad" if ct == "container" else ct
+    ref, conn = two_cell_reference(base_ct, 2)
+    shear = {"A": 0.3, "B": -0.3}[order]
+    near = ref.copy()
+    near[:, 0] = near[:, 0] + shear * near[:, 1]
+    P = vk.reals("X", near.shape, near=near, spread=0.1)
+    assume_valid(vk, base_ct, P, conn)
+    chain = list(np.argsort(near[:, 0]))
+    for i in range(len(chain)):
+        for j in range(i + 1, len(chain)):
+            vk.requires(P[chain[j], 0] - P[chain[i], 0], ">")
+    n = conn.shape[1]
+    dis = fem.Mesh(np.vstack([P[conn[0]], P[conn[1]]]), np.arange(2 * n).reshape(2, n), base_ct)
+    s0 = snap(vk, dis)
+
+    def check(nm, new_points, blocks, ref_blocks):
+        ensures_same(vk, nm + "/npoints==number-of-distinct-points", len(new_points), len(P))
+        distinct = all(not rows_equal(vk, new_points[i], new_points[j]) for i in range(len(new_points)) for j in range(i + 1, len(new_points)))
+        ensures_same(vk, nm + "/no-two-points-coincide", distinct, True)
+        for k, (b, r) in enumerate(zip(blocks, ref_blocks)):
+            vk.ensures_eq(nm + f"/block{k}/no-cell-corner-moved", new_points[b], r)
+        used = np.unique(np.concatenate([b.ravel() for b in blocks]))
+        ensures_same(vk, nm + "/no-unused-points", used, np.arange(len(new_points)))
+
+    if ct != "container":
+        for label, call in (("function", lambda: fm.merge_duplicate_points(dis)), ("sweep", lambda: dis.sweep()), ("array-form", lambda: fem.Mesh(*fm.merge_duplicate_points(dis.points, dis.cells, base_ct, decimals=None)))):
+            new = call()
+            nm = f"merge/{label}"
+            check(nm, new.points, [new.cells], [cell_coords(dis)])
+            vk.ensures_eq(nm + "/volume", vols(new), vols(dis))
+            vk.ensures_eq(nm + "/corner-jacobians", cjac(new), cjac(dis))
+            ensures_same(vk, nm + "/cell_type", new.cell_type, base_ct)
+        frame(vk, "merge", dis, s0)
+        vk.canary("merge-keeps-all-points", len(new.points), len(dis.points))
+    else:
+        vk.real(fem.MeshContainer.merge_duplicate_points)
+        a = fem.Mesh(P[conn[0]], np.arange(n).reshape(1, n), base_ct)
+        b = fem.Mesh(P[conn[1]], np.arange(n).reshape(1, n), base_ct)
+        cont = fem.MeshContainer([a, b], merge=True)
+        check("container/merge=True", cont.points, [m.cells for m in cont.meshes], [cell_coords(a), cell_coords(b)])
+        for k, m in enumerate(cont.meshes):
+            vk.ensures_eq(f"container/merge=True/mesh{k}/shares-the-points-array", m.points, cont.points)
+        vk.canary("container-merge-keeps-all-points", len(cont.points), 2 * n)
+
+
+# ================================================================================================ B: bounded
+def _native_inv(mesh, ct=None, tol=1e-12):
+    """native Inv check of a float mesh: (all corner Jacobians > 0, no unused points, list of volumes)"""
+    ct = ct or mesh.cell_type
+    n = cells.NCORNER[cells.base_type(ct)]
+    J = np.array([cells.corner_jacobians(ct, mesh.points[c[:n]]) for c in mesh.cells], dtype=float)
+    V = np.array([cells.volume(ct, mesh.points[c[:n]]) for c in mesh.cells], dtype=float)
+    used = np.unique(mesh.cells)
+    unused = len(used) != len(mesh.points) or len(mesh.points_without_cells) > 0
+    return bool(np.all(J > tol) and np.all(V > tol)), (not unused), V
+
+
+def _min_point_distance(P):
+    P = np.asarray(P, dtype=float)
+    if len(P) < 2:
+        return np.inf
+    d = np.abs(P[:, None, :] - P[None, :, :]).max(axis=2)
+    d[np.arange(len(P)), np.arange(len(P))] = np.inf
+    return d.min()
+
+
+class Bounded:
+    """collects the evaluations of one bounded stand-in; a failing evaluation additionally raises a refuted
+    obligation with the failing input (so that it is reported), a passing one is never counted"""
+
+    def __init__(s, vk, what, bound):
+        s.vk, s.what, s.bound, s.n, s.bad = vk, what, bound, 0, []
+
+    def check(s, ok, inp, detail=""):
+        s.n += 1
+        if not ok:
+            s.bad.append((inp, detail))
+
+    def close(s):
+        s.vk.bounded_standin(s.what, s.bound, s.n, not s.bad, detail="; ".join(f"{i}: {d}" for i, d in s.bad[:3]))
+        if s.bad:
+            inp, detail = s.bad[0]
+            s.vk.ensures_true("bounded/" + s.what, False, f"{len(s.bad)} of {s.n} evaluations fail; first: {inp}: {detail}", backend="bounded", replay={"kind": "ground", "bounded": True, "point": str(inp), "expected": "clause holds", "actual": detail, "confirmed": True})
+
+
+GEN_CFG = [dict(family=f) for f in ("line-rectangle-cube", "grid", "circle", "triangle", "lagrange", "merge-rounding", "revolve-expand-scalar", "runouts-fill")]
+
+
+@contract("C16", "generators", configs=GEN_CFG, engine="ground")
+def generators(vk, cfg):
+    """B (bounded, never counted): generators and the float paths that cannot be executed symbolically
+    (np.unique on rounded floats, scalar linspace paths, runouts), exhaustive small scope, run natively:
+    positively oriented cells, sum of volumes == analytic measure of the intended domain, no unused and no
+    coincident points"""
+    if not vk.sym:
+        return
+    fam = cfg["family"]
+    with symnp.native(), warnings.catch_warnings():
+        warnings.simplefilter("ignore")
+        _generators(vk, fam)
+
+
+def _generators(vk, fam):
+    N = (2, 3, 4)
+    if fam == "line-rectangle-cube":
+        for f in (fem.mesh.Line, fem.Rectangle, fem.Cube, fem.Point, fm._line_rectangle_cube.line_line, fm._line_rectangle_cube.rectangle_quad, fm._line_rectangle_cube.cube_hexa):
+            vk.real(f)
+        B = Bounded(vk, "Line/Rectangle/Cube: oriented cells tile the box, no unused/coincident points", "n <= 4 per axis (all combinations), 2 boxes per dimension, scalar and tuple n")
+        boxes = {1: [((0.0,), (1.0,)), ((-2.1,), (3.5,))], 2: [((0.0, 0.0), (1.0, 1.0)), ((-1.2, 0.5), (4.5, 7.3))], 3: [((0.0, 0.0, 0.0), (1.0, 1.0, 1.0)), ((-1.2, 0.5, 6.2), (4.5, 7.3, 9.3))]}
+        for dim, G in ((1, fem.mesh.Line), (2, fem.Rectangle), (3, fem.Cube)):
+            for a, b in boxes[dim]:
+                for n in list(itertools.product(N, repeat=dim)) + ([(k,) for k in N] if dim > 1 else []):
+                    if dim == 1:
+                        m = G(a=a[0], b=b[0], n=n[0])
+                    else:
+                        m = G(a=a, b=b, n=n[0] if len(n) == 1 and dim > 1 else n)
+                    nn = n if len(n) == dim else n * dim
+                    ori, used, V = _native_inv(m)
+                    meas = np.prod(np.array(b) - np.array(a))
+                    inp = f"{G.__name__}(a={a}, b={b}, n={n})"
+                    B.check(ori, inp, "cell not positively oriented")
+                    B.check(used, inp, "unused points")
+                    B.check(abs(V.sum() - meas) < 1e-12 * max(1, meas), inp, f"sum of volumes {V.sum()} != {meas}")
+                    B.check(len(m.points) == np.prod(nn) and len(m.cells) == np.prod(np.array(nn) - 1), inp, "point / cell count")
+                    B.check(_min_point_distance(m.points) > 1e-9, inp, "coincident points")
+                    B.check(bool(np.all(m.points >= np.array(a) - 1e-12) and np.all(m.points <= np.array(b) + 1e-12)), inp, "point outside the box")
+                    B.check(np.allclose(m.points.min(axis=0), a) and np.allclose(m.points.max(axis=0), b), inp, "box corners not hit")
+        p = fem.Point(a=-2.1)
+        B.check(p.points.tolist() == [[-2.1]] and p.cells.tolist() == [[0]] and p.cell_type == "vertex", "Point(a=-2.1)", "vertex mesh")
+        B.close()
+    elif fam == "grid":
+        vk.real(fem.Grid)
+        B = Bounded(vk, "Grid: oriented cells tile the box of the coordinate vectors", "<= 4 non-uniform increasing coordinates per axis, dims 1..3")
+        coords = {2: np.array([-1.0, 0.5]), 3: np.array([0.0, 1.0, 4.0]), 4: np.array([0.3, 0.7, 2.0, 2.25])}
+        for dim in (1, 2, 3):
+            for n in itertools.product(N, repeat=dim):
+                xi = [coords[k] + 0.1 * i for i, k in enumerate(n)]
+                m = fem.Grid(*xi)
+                ori, used, V = _native_inv(m)
+                meas = np.prod([x[-1] - x[0] for x in xi])
+                inp = f"Grid(lengths={n})"
+                B.check(ori and used, inp, "orientation / unused points")
+                B.check(abs(V.sum() - meas) < 1e-12 * max(1, meas), inp, f"sum of volumes {V.sum()} != {meas}")
+                pts = {tuple(p) for p in np.round(m.points, 12)}
+                B.check(pts == {tuple(np.round(p, 12)) for p in itertools.product(*xi)}, inp, "points are not the tensor grid")
+        B.close()
+    elif fam == "circle":
+        vk.real(fem.Circle)
+        B = Bounded(vk, "Circle: oriented quads tile the polygon inscribed in the sections, no coincident points", "n <= 4, 7 section sets, 2 radii/centres")
+        for n in N:
+            for sections in ([0, 90, 180, 270], [0], [0, 90], [90, 270], [0, 180, 270], [45, 135, 225, 315], [30]):
+                for radius, cen in ((1.0, [0.0, 0.0]), (2.5, [1.0, -2.0])):
+                    m = fem.Circle(radius=radius, centerpoint=cen, n=n, sections=sections)
+                    ori, used, V = _native_inv(m)
+                    seg = 2 * (n - 1)
+                    meas = len(sections) * seg * 0.5 * radius**2 * np.sin(np.pi / 2 / seg)
+                    inp = f"Circle(radius={radius}, centerpoint={cen}, n={n}, sections={sections})"
+                    B.check(ori, inp, "cell not positively oriented")
+                    B.check(used, inp, "unused points")
+                    B.check(abs(V.sum() - meas) < 1e-8 * meas, inp, f"sum of areas {V.sum()} != inscribed polygon {meas}")
+                    B.check(_min_point_distance(m.points) > 1e-9, inp, "coincident points")
+                    rad = np.linalg.norm(m.points - np.array(cen), axis=1)
+                    B.check(bool(np.all(rad <= radius * (1 + 1e-9))), inp, "point outside the circle")
+        B.close()
+    elif fam == "triangle":
+        vk.real(fem.mesh.Triangle)
+        B = Bounded(vk, "Triangle: oriented quads tile the (counter-clockwise) triangle, no coincident points", "n <= 4, 3 triangles")
+        for n in N:
+            for a, b, c in (((0.0, 0.0), (1.0, 0.0), (0.0, 1.0)), ((0.3, 0.2), (1.2, 0.1), (0.1, 0.9)), ((-1.0, -1.0), (3.0, 0.5), (0.0, 2.0))):
+                m = fem.mesh.Triangle(a=a, b=b, c=c, n=n)
+                ori, used, V = _native_inv(m)
+                meas = cells.volume("triangle", np.array([a, b, c]))
+                inp = f"Triangle(a={a}, b={b}, c={c}, n={n})"
+                B.check(ori and used, inp, "orientation / unused points")
+                B.check(abs(V.sum() - meas) < 1e-9 * meas, inp, f"sum of areas {V.sum()} != {meas}")
+                B.check(_min_point_distance(m.points) > 1e-9, inp, "coincident points")
+                B.check(len(m.cells) == 3 * (n - 1) ** 2 and len(m.points) == 3 * (n - 1) ** 2 + 3 * (n - 1) + 1, inp, "point / cell count")
+        B.close()
+    elif fam == "lagrange":
+        vk.real(fem.mesh.RectangleArbitraryOrderQuad)
+        vk.real(fem.mesh.CubeArbitraryOrderHexahedron)
+        B = Bounded(vk, "ArbitraryOrder Lagrange cells: node j sits at the image of the element's reference node j, dV > 0, sum dV == box", "order <= 4 (quad), <= 3 (hexahedron), 2 boxes")
+        for dim, G, orders in ((2, fem.mesh.RectangleArbitraryOrderQuad, (1, 2, 3, 4)), (3, fem.mesh.CubeArbitraryOrderHexahedron, (1, 2, 3))):
+            for a, b in (((0.0,) * dim, (1.0,) * dim), ((-1.2, 0.5, 6.2)[:dim], (4.5, 7.3, 9.3)[:dim])):
+                for order in orders:
+                    m = G(a=a, b=b, order=order)
+                    el = fem.element.ArbitraryOrderLagrange(order=order, dim=dim)
+                    inp = f"{G.__name__}(a={a}, b={b}, order={order})"
+                    want = np.array(a) + (el.points + 1) / 2 * (np.array(b) - np.array(a))
+                    B.check(m.cells.shape == (1, (order + 1) ** dim) and sorted(m.cells[0].tolist()) == list(range(len(m.points))), inp, "cell is not a permutation of all points")
+                    B.check(np.allclose(m.points[m.cells[0]], want, atol=1e-12), inp, "node order differs from the Lagrange element")
+                    reg = fem.Region(m, el, fem.GaussLegendre(order=order, dim=dim))
+                    meas = np.prod(np.array(b) - np.array(a))
+                    B.check(bool(np.all(reg.dV > 0)) and abs(reg.dV.sum() - meas) < 1e-9 * meas, inp, f"dV: min {reg.dV.min()}, sum {reg.dV.sum()} != {meas}")
+        B.close()
+    elif fam == "merge-rounding":
+        vk.real(fm.merge_duplicate_points)
+        vk.real(fem.MeshContainer.merge_duplicate_points)
+        B = Bounded(vk, "merge_duplicate_points(decimals): corners move <= half a rounding unit (not at all for None), merged points are a rounding unit apart, coincident points are merged, no unused points", "two adjacent rectangles, n <= 4 per axis, decimals in {None, 3, 8}, perturbation in {0, 1e-10, 2e-5}")
+        for n1 in itertools.product(N, repeat=2):
+            for n2x in N:
+                for dec in (None, 3, 8):
+                    for delta in (0.0, 1e-10, 2e-5):
+                        r1 = fem.Rectangle(a=(0, 0), b=(1, 1), n=n1)
+                        r2 = fem.Rectangle(a=(1, 0), b=(2.5, 1), n=(n2x, n1[1]))
+                        r2.points[:] = r2.points + delta
+                        both = fm.concatenate([r1, r2])
+                        for label, merged in (("function", fm.merge_duplicate_points(both, decimals=dec)), ("container", fem.MeshContainer([r1, r2], merge=True, decimals=dec))):
+                            inp = f"{label}: n1={n1}, n2=({n2x},{n1[1]}), decimals={dec}, delta={delta}"
+                            if label == "container":
+                                P = merged.points
+                                blocks = [(m.cells, r) for m, r in zip(merged.meshes, (r1, r2))]
+                            else:
+                                P = merged.points
+                                blocks = [(merged.cells[: len(r1.cells)], r1), (merged.cells[len(r1.cells) :], r2)]
+                            unit = 0.0 if dec is None else 10.0 ** (-dec)
+                            move = max(np.abs(P[c] - r.points[r.cells]).max() for c, r in blocks)
+                            B.check(move <= 0.5 * unit * (1 + 1e-9), inp, f"a cell corner moved by {move}")
+                            B.check(_min_point_distance(P) >= (unit * (1 - 1e-6) if dec is not None else 1e-300), inp, f"two points closer than the rounding unit: {_min_point_distance(P)}")
+                            used = np.unique(np.concatenate([c.ravel() for c, _ in blocks]))
+                            B.check(len(used) == len(P), inp, "unused points after merging")
+                            should_merge = delta == 0.0 or (dec is not None and delta < 0.05 * unit)
+                            if should_merge or (dec is None) or delta > 5 * unit:
+                                expect = len(r1.points) + len(r2.points) - (n1[1] if should_merge else 0)
+                                B.check(len(P) == expect, inp, f"{len(P)} points, expected {expect}")
+        B.close()
+    elif fam == "revolve-expand-scalar":
+        vk.real(fm.revolve)
+        vk.real(fm.expand)
+        B = Bounded(vk, "revolve / expand with scalar phi / z (linspace paths, phi == 360 closing): oriented cells, volume == sum sin(dphi) * first moment resp. area * z, no unused points", "n <= 5 layers, phi in {45, 90, 180, 360}, z in {0.5, 2}")
+        rect = fem.Rectangle(a=(0.5, 1.0), b=(2.0, 3.0), n=(3, 2))
+        M = sum(cells.first_moment(rect.points[c], 1) for c in rect.cells)
+        line = fem.mesh.Line(a=0.5, b=2.0, n=3)
+        for n in (2, 3, 4, 5):
+            for phi in (45, 90, 180, 360):
+                if phi / (n - 1) >= 180:
+                    continue
+                dphi = np.deg2rad(phi / (n - 1))
+                h = rect.revolve(n=n, phi=phi, axis=0)
+                ori, used, V = _native_inv(h)
+                inp = f"Rectangle.revolve(n={n}, phi={phi}, axis=0)"
+                B.check(ori and used, inp, "orientation / unused points")
+                B.check(abs(V.sum() - (n - 1) * np.sin(dphi) * M) < 1e-10, inp, f"volume {V.sum()}")
+                B.check(len(h.points) == (n - (phi == 360)) * len(rect.points), inp, "point count (closing at 360)")
+                q = line.revolve(n=n, phi=phi)
+                ori, used, V = _native_inv(q)
+                B.check(ori and used and abs(V.sum() - (n - 1) * np.sin(dphi) * (2.0**2 - 0.5**2) / 2) < 1e-10, f"Line.revolve(n={n}, phi={phi})", f"orientation / area {V.sum()}")
+            for z in (0.5, 2):
+                for base, meas in ((rect, 1.5 * 2.0), (line, 1.5)):
+                    e = base.expand(n=n, z=z)
+                    ori, used, V = _native_inv(e)
+                    B.check(ori and used and abs(V.sum() - meas * z) < 1e-12, f"{base.cell_type}.expand(n={n}, z={z})", f"orientation / volume {V.sum()}")
+        B.close()
+    elif fam == "runouts-fill":
+        vk.real(fm.runouts)
+        vk.real(fm.fill_between)
+        B = Bounded(vk, "runouts keep positive orientation and the extent along the axis (values=0: identity); fill_between tiles the region between two lines with oriented quads", "grids n <= 4, axes 0..2, normalize in {False, True}; n <= 4 layers")
+        for n in N:
+            for mesh in (fem.Rectangle(a=(-3, -1), b=(3, 1), n=(n, n)), fem.Cube(a=(-3, -2, -1), b=(3, 2, 1), n=(n, n, 2))):
+                for axis in range(mesh.dim):
+                    for normalize in (False, True):
+                        r = mesh.add_runouts(axis=axis, normalize=normalize)
+                        ori, used, V = _native_inv(r)
+                        inp = f"{mesh.cell_type} n={n} add_runouts(axis={axis}, normalize={normalize})"
+                        B.check(ori and used, inp, "orientation / unused points")
+                        B.check(np.allclose(r.points[:, axis], mesh.points[:, axis]), inp, "coordinate along the axis changed")
+                    same = mesh.add_runouts(values=[0.0, 0.0], axis=axis)
+                    B.check(np.allclose(same.points, mesh.points), f"{mesh.cell_type} n={n} add_runouts(values=0)", "not the identity")
+            bot = fem.mesh.Line(a=0.0, b=2.0, n=3)
+            bot = fem.Mesh(np.hstack([bot.points, 0.1 * bot.points**2]), bot.cells, "line")
+            top = fem.Mesh(bot.points * np.array([1.0, -1.0]) + np.array([0.3, 1.5]), bot.cells, "line")
+            f = bot.fill_between(top, n=n)
+            ori, used, V = _native_inv(f)
+            span = sum(cells.volume("quad", np.vstack([bot.points[c], top.points[c][::-1]])) for c in bot.cells)
+            B.check(ori and used and abs(V.sum() - span) < 1e-12, f"fill_between(n={n})", f"orientation / area {V.sum()} != {span}")
+        B.close()
+
+
+# ================================================================================================ generators with symbolic bounds
+def _ns(dim, top):
+    return [n for n in itertools.product(range(2, top + 1), repeat=dim)]
+
+
+GENP_CFG = (
+    [dict(gen="Line", n=(k,)) for k in (2, 3, 4)]
+    + [dict(gen="Rectangle", n=n) for n in _ns(2, 4)]
+    + [dict(gen="Cube", n=n, **({} if max(n) < 4 or n == (4, 4, 4) else {"tier": "thorough"})) for n in _ns(3, 4)]
+    + [dict(gen="Rectangle", n=(3,)), dict(gen="Cube", n=(2,))]
+    + [dict(gen="RectangleArbitraryOrderQuad", n=(o,)) for o in (1, 2, 3)]
+    + [dict(gen="CubeArbitraryOrderHexahedron", n=(o,)) for o in (1, 2, 3)]
+    + [dict(gen="RectangleArbitraryOrderQuad", n=(o,), tier="thorough") for o in (4, 5)]
+    + [dict(gen="CubeArbitraryOrderHexahedron", n=(4,), tier="thorough")]
+    + [dict(gen="Point", n=(1,))]
+)
+
+
+@contract("C16", "generate", configs=GENP_CFG)
+def generate(vk, cfg):
+    """Line / Rectangle / Cube / ...ArbitraryOrder... with symbolic bounds a < b (per axis) at fixed small
+    point counts: the points are exactly the tensor grid a + (b-a) k/(n-1), every cell is one grid box with
+    positive orientation, every box is covered once, the volumes sum to prod(b-a), no unused points"""
+    gen, n = cfg["gen"], tuple(cfg["n"])
+    dim = {"Line": 1, "Rectangle": 2, "Cube": 3, "RectangleArbitraryOrderQuad": 2, "CubeArbitraryOrderHexahedron": 3, "Point": 1}[gen]
+    a = vk.reals("a", (dim,), near=[-1.2, 0.5, 6.2][:dim], spread=0.5)
+    w = vk.reals("w", (dim,), near=[5.7, 6.8, 3.1][:dim], spread=2.0)  # b = a + w, w > 0
+    for x in w:
+        vk.requires(x, ">")
+    b = a + w
+    G = {"Line": fem.mesh.Line, "Rectangle": fem.Rectangle, "Cube": fem.Cube, "RectangleArbitraryOrderQuad": fem.mesh.RectangleArbitraryOrderQuad, "CubeArbitraryOrderHexahedron": fem.mesh.CubeArbitraryOrderHexahedron, "Point": fem.Point}[gen]
+    vk.real(G)
+    vk.real(fm.expand)
+    if gen == "Point":
+        m = fem.Point(a=a[0])
+        vk.ensures_eq("Point/points", m.points, np.array([[a[0]]]))
+        ensures_same(vk, "Point/cells", (m.cells.tolist(), m.cell_type), ([[0]], "vertex"))
+        vk.canary("point-at-zero", m.points, 0 * m.points)
+        return
+    if "ArbitraryOrder" in gen:
+        order = n[0]
+        m = G(a=tuple(a), b=tuple(b), order=order)
+        el = fem.element.ArbitraryOrderLagrange(order=order, dim=dim)
+        vk.real(fem.element.lagrange_quad if dim == 2 else fem.element.lagrange_hexahedron)
+        xi = np.asarray(el.points, dtype=float)
+        t = ring.lift((xi + 1) / 2) if vk.sym else (xi + 1) / 2
+        want = np.array([[a[i] + w[i] * t[j, i] for i in range(dim)] for j in range(len(xi))])
+        ensures_same(vk, f"{gen}/one-cell-with-all-points", (m.cells.shape, sorted(m.cells[0].tolist())), ((1, (order + 1) ** dim), list(range(len(m.points)))))
+        vk.ensures_eq(f"{gen}/node-j==image-of-reference-node-j-of-the-Lagrange-element", m.points[m.cells[0]], want)
+        ct = "quad" if dim == 2 else "hexahedron"
+        nc = cells.NCORNER[ct]
+        ensures_pos(vk, f"{gen}/corner-jacobians-positive", np.array(cells.corner_jacobians(ct, m.points[m.cells[0, :nc]])))
+        vk.ensures_eq(f"{gen}/volume==prod(b-a)", cells.volume(ct, m.points[m.cells[0, :nc]]), np.prod(w))
+        no_unused(vk, gen, m)
+        vk.canary("lagrange-nodes-in-grid-order", m.points[m.cells[0]], m.points)
+        return
+    if gen == "Line":
+        m = G(a=a[0], b=b[0], n=n[0])
+    else:
+        m = G(a=tuple(a), b=tuple(b), n=n[0] if len(n) == 1 else n)
+    nn = n if len(n) == dim else n * dim
+    ct = m.cell_type
+    ensures_same(vk, f"{gen}/cell_type", ct, {1: "line", 2: "quad", 3: "hexahedron"}[dim])
+    ensures_same(vk, f"{gen}/npoints,ncells", (len(m.points), len(m.cells)), (int(np.prod(nn)), int(np.prod(np.array(nn) - 1))))
+    axes = [[a[i] + w[i] * ring.fr(k / (nn[i] - 1)) if vk.sym else a[i] + w[i] * k / (nn[i] - 1) for k in range(nn[i])] for i in range(dim)]
+    grid = [list(p) for p in itertools.product(*axes)]
+    vk.ensures_true(f"{gen}/points==tensor-grid", same_point_sets(vk, list(m.points), grid), "as sets, without repetition")
+    boxes = {}
+    for idx in itertools.product(*[range(k - 1) for k in nn]):
+        boxes[idx] = [[axes[i][idx[i] + d[i]] for i in range(dim)] for d in itertools.product((0, 1), repeat=dim)]
+    todo = set(boxes)
+    ok = True
+    for c in m.cells:
+        hit = [idx for idx in sorted(todo) if same_point_sets(vk, list(m.points[c]), boxes[idx])]
+        if not hit:
+            ok = False
+            break
+        todo.discard(hit[0])
+    vk.ensures_true(f"{gen}/every-cell-is-one-grid-box,every-box-once", ok and not todo, f"{len(todo)} boxes not covered")
+    ensures_pos(vk, f"{gen}/corner-jacobians-positive", cjac(m))
+    vk.ensures_eq(f"{gen}/sum-of-volumes==prod(b-a)", sum(vols(m)), np.prod(w))
+    no_unused(vk, gen, m)
+    vk.canary("volume==1", sum(vols(m)), 1 + 0 * w[0])
+
+
+# ================================================================================================ sequences
+@contract("C16", "sequence", configs=[dict(seq="quad-rigid-expand-triangulate"), dict(seq="tetra-rigid-convert-disconnect"), dict(seq="line-expand-revolve"), dict(seq="concatenate-mirror-merge")])
+def sequence(vk, cfg):
+    """end-to-end instances of the composition lemma: Inv is checked after a whole sequence of operations
+    (the per-operation contracts above carry the general claim; these runs exercise the real call chain)"""
+    seq = cfg["seq"]
+    if seq == "quad-rigid-expand-triangulate":
+        m0 = make_mesh(vk, "quad", 2)
+        a, c, s = angle(vk, "alpha")
+        move = vk.real_scalar("move", near=0.4)
+        d = vk.real_scalar("d", near=0.8, spread=0.3)
+        vk.requires(d, ">")
+        m = m0.translate(move, 0).rotate(a, 2).mirror(axis=1).flip().flip()
+        vk.ensures_eq("rigid-part/volume", tr(vk, vols(m)), vols(m0))
+        vk.ensures_eq("rigid-part/corner-jacobians-as-multiset-sum", tr(vk, cjac(m).sum(axis=1)), cjac(m0).sum(axis=1))
+        h = m.expand(z=np.array([0 * d, d]))
+        t = h.triangulate(mode=3)
+        Vt = tr(vk, vols(t))
+        vk.ensures_eq("tetrahedra/total-volume==area*thickness", sum(Vt), sum(vols(m0)) * d)
+        ensures_pos(vk, "tetrahedra/positively-oriented", Vt)
+        t0 = h.triangulate(mode=0)
+        V0 = tr(vk, vols(t0))
+        vk.ensures_eq("tetrahedra-mode0/total-volume==area*thickness", sum(V0), sum(vols(m0)) * d)
+        ensures_pos(vk, "tetrahedra-mode0/positively-oriented", V0)
+        no_unused(vk, "tetrahedra", t)
+        vk.canary("sequence-loses-volume", sum(Vt), sum(vols(m0)))
+    elif seq == "tetra-rigid-convert-disconnect":
+        m0 = make_mesh(vk, "tetra", 2)
+        a, c, s = angle(vk, "alpha")
+        cen = vk.reals("cen", (3,), near=0.2)
+        nrm = vk.reals("nrm", (3,), near=[0.5, 0.6, -0.4], spread=0.2)
+        vk.requires(sum(nrm * nrm), ">")
+        m = m0.mirror(normal=nrm).rotate(a, 1, center=cen).add_midpoints_edges().disconnect()
+        ensures_same(vk, "cell_type", m.cell_type, "tetra10")
+        vk.ensures_eq("volume", tr(vk, vols(m, ct="tetra")), vols(m0))
+        ensures_pos(vk, "positively-oriented", tr(vk, vols(m, ct="tetra")))
+        mid = np.array([[(m.points[c[i]] + m.points[c[j]]) / 2 for i, j in ((0, 1), (1, 2), (2, 0), (0, 3), (1, 3), (2, 3))] for c in m.cells])
+        vk.ensures_eq("mid-points-are-edge-centroids-after-the-sequence", m.points[m.cells[:, 4:]], mid)
+        no_unused(vk, "result", m)
+        vk.canary("sequence-flips", tr(vk, vols(m, ct="tetra")), -vols(m0))
+    elif seq == "line-expand-revolve":
+        base = base_mesh(vk, "line")
+        z0 = vk.real_scalar("z0", near=0.5, spread=0.2)
+        dz = vk.real_scalar("dz", near=0.8, spread=0.3)
+        vk.requires(z0, ">")
+        vk.requires(dz, ">")
+        a1, c1, s1 = angle(vk, "phi", near=60.0, spread=30.0)
+        vk.requires(s1, ">")
+        q = base.expand(z=np.array([z0, z0 + dz]))
+        h = q.revolve(phi=np.array([0 * a1, a1]), axis=0)
+        V = tr(vk, vols(h))
+        M = sum(cells.first_moment(q.points[c], 1) for c in q.cells)
+        vk.ensures_eq("volume==sin(phi)*first-moment-of-the-section", sum(V), s1 * M)
+        ensures_pos(vk, "positively-oriented", V)
+        no_unused(vk, "result", h)
+        vk.canary("revolve-loses-volume", sum(V), M)
+    else:
+        # two copies of a cell pair, the second mirrored onto the first's neighbour: concatenate + merge
+        ref, conn = two_cell_reference("quad", 1)
+        near = ref.copy()
+        near[:, 0] = near[:, 0] + 0.3 * near[:, 1]
+        P = vk.reals("X", near.shape, near=near, spread=0.08)
+        assume_valid(vk, "quad", P, conn)
+        xm = vk.real_scalar("xm", near=2.0, spread=0.1)
+        a = fem.Mesh(P, conn, "quad")
+        b = a.mirror(axis=0, centerpoint=[xm, 0 * xm])
+        both = fm.concatenate([a, b])
+        vk.ensures_eq("concatenate-mirror/volume", vols(both), np.concatenate([vols(a), vols(a)]))
+        ensures_pos(vk, "concatenate-mirror/corner-jacobians-positive", cjac(both))
+        # distinct first coordinates in a known order: x of a < xm < x of b reversed
+        order = list(np.argsort(near[:, 0]))
+        xs = [P[i, 0] for i in order] + [2 * xm - P[i, 0] for i in order[::-1]]
+        for i in range(len(xs)):
+            for j in range(i + 1, len(xs)):
+                vk.requires(xs[j] - xs[i], ">")
+        merged = both.sweep()
+        ensures_same(vk, "sweep/npoints", len(merged.points), 8)
+        vk.ensures_eq("sweep/no-cell-corner-moved", cell_coords(merged), cell_coords(both))
+        vk.ensures_eq("sweep/volume", vols(merged), vols(both))
+        no_unused(vk, "sweep", merged)
+        vk.canary("sweep-merges-distinct-points", len(merged.points), 6)
